@@ -6,6 +6,6 @@ func init() {
 	plans["C21"] = Plan{Pkg: pkg("C21"), Steps: []Step{
 		// one program = script server + client + 3-8 operations + publish traffic: ~0.1-0.2 s;
 		// a panic in one of gopcua's own goroutines kills the shard: the journal names the program
-		{Run: "TestPrograms", Quick: 1600, Thorough: 60000, QShards: 16, TShards: 16, MemMB: 8192, QTimeout: 8 * time.Minute, TTimeout: 90 * time.Minute},
+		{Run: "TestPrograms", Quick: 1600, Thorough: 24000, QShards: 16, TShards: 16, MemMB: 8192, QTimeout: 8 * time.Minute, TTimeout: 90 * time.Minute},
 	}}
 }
